@@ -56,7 +56,7 @@ def main(ctx):
     ctx.audit(GROUP)
     failed = ctx.prove(GROUP, "Props_C16", THEOREMS)
     bindir = ctx.harness(GROUP, profile="release", bins=["c16"])
-    cases = ctx.gen_exec(bindir, "c16", int(os.environ.get('VERIF_N', ctx.n(40, 300))), inputs=ctx.replay_inputs())
+    cases = ctx.gen_exec(bindir, "c16", int(os.environ.get('VERIF_N', ctx.n(40, 120))), inputs=ctx.replay_inputs())
     gemm_cases = [c for c in cases if not c["term"].startswith("CP ")]
     pack_cases = [c for c in cases if c["term"].startswith("CP ")]
     # The property is functional: the implementation's output must equal the specification.  Alarms
